@@ -149,7 +149,7 @@ def c01(ctx, api):
     tv = api['run_trace_validation'](ctx, 'traces', 6000 if thorough else 1500, ctx['seed'])
     acc.add_traces('trace validation: the compliance corpus and randomly grown expressions/documents run through the real Search, '
                    'every recorded outcome checked by TLC against Admissible(expr, doc)', tv)
-    st, summ = api['run_tlc_to_harness'](ctx, 'tsweep', 'GenTSweep', cfg(constants={'Emit': 'TRUE', 'Prop': '"C01"', 'To': 9000 if thorough else 1100}),
+    st, summ = api['run_tlc_to_harness'](ctx, 'tsweep', 'GenTSweep', cfg(constants={'Emit': 'TRUE', 'Prop': '"C01"', 'Only': '{}', 'To': 9000 if thorough else 1100}),
                                          timeout=1500, harness_args=['-timeout', '600s'])
     acc.add('GenTSweep: 120 template families (document, expression and expected value with REP / IDX / NUM holes) instantiated for every n = 0..%d: '
             'a 2/3/4-byte character after n letters under 17 string operations, n distinct variables / fields / arguments / hash keys, every array / object / string function on inputs of size n, '
@@ -217,8 +217,14 @@ def c10(ctx, api):
     acc.add('GenChain: runs of %s operands joined by one operator (18 spellings) or two alternating operators of one level (14 pairs), '
             'against the left-nested parenthesised text, on 5 small documents (outcome from Eval) and 8 documents where the grouping '
             'changes rounding (float64 1e16 + 1, 34-digit decimals; the two texts must agree)' % lens, st, summ)
+    st, summ = api['run_tlc_to_harness'](ctx, 'tsweep', 'GenTSweep', cfg(constants={'Emit': 'TRUE', 'Prop': '"C10"', 'Only': '{"chain-"}', 'To': 9000 if thorough else 1100}),
+                                         timeout=1500, harness_args=['-timeout', '600s'])
+    acc.add('GenTSweep chain families: runs of n = 0..%d operands of one operator whose first / last / middle operand is an expression of another '
+            'precedence level (and-then-ors, parenthesised-or-then-ands, mul-then-adds, left-nested subtraction and division, comparison-then-ands, '
+            'not-then-ors, pipes after or); the value is a closed form of n checked against the specification for 4 values of n (TemplateLemma)'
+            % (9000 if thorough else 1100), st, summ)
     return acc.result(RULE_PINNED + '; each case also carries the fully parenthesised text, which must give the same result on the real code',
-                      extra={'model_checks': ['GroupsByTable', 'UnaryTighterThanBinary', 'ParenNeutral', 'AllParse', 'ChainLeftNested', 'SameOutcomeInModel']})
+                      extra={'model_checks': ['GroupsByTable', 'TemplateLemma', 'UnaryTighterThanBinary', 'ParenNeutral', 'AllParse', 'ChainLeftNested', 'SameOutcomeInModel']})
 
 
 # --------------------------------------------------------------------- C12
@@ -239,7 +245,7 @@ def c12(ctx, api):
             st, summ)
     st, summ = api['run_tlc_to_harness'](ctx, 'align', 'GenAlign', cfg(constants={'Emit': 'TRUE', 'Prop': '"C12"', 'MaxK': 34 if thorough else 26}), timeout=1500)
     acc.add('GenAlign: slices (and other position-sensitive operations) on strings with one 2/3/4-byte character after k = 0..%d ASCII letters' % (34 if thorough else 26), st, summ)
-    st, summ = api['run_tlc_to_harness'](ctx, 'tsweep', 'GenTSweep', cfg(constants={'Emit': 'TRUE', 'Prop': '"C12"', 'To': 9000 if thorough else 1100}),
+    st, summ = api['run_tlc_to_harness'](ctx, 'tsweep', 'GenTSweep', cfg(constants={'Emit': 'TRUE', 'Prop': '"C12"', 'Only': '{}', 'To': 9000 if thorough else 1100}),
                                          timeout=1500, harness_args=['-timeout', '600s'])
     acc.add('GenTSweep: 120 template families (document, expression and expected value with REP / IDX / NUM holes) instantiated for every n = 0..%d: '
             'a 2/3/4-byte character after n letters under 17 string operations, n distinct variables / fields / arguments / hash keys, every array / object / string function on inputs of size n, '
@@ -289,7 +295,7 @@ def c19(ctx, api):
     finally:
         ctx['harness_env'] = {}
     acc.add('let nesting 64 .. 8192 and 100,000 levels deep: shadowing ends with the inner let, chains of re-bindings, no leak to a sibling', st, summ)
-    st, summ = api['run_tlc_to_harness'](ctx, 'tsweep', 'GenTSweep', cfg(constants={'Emit': 'TRUE', 'Prop': '"C19"', 'To': 9000 if thorough else 1100}),
+    st, summ = api['run_tlc_to_harness'](ctx, 'tsweep', 'GenTSweep', cfg(constants={'Emit': 'TRUE', 'Prop': '"C19"', 'Only': '{}', 'To': 9000 if thorough else 1100}),
                                          timeout=1500, harness_args=['-timeout', '600s'])
     acc.add('GenTSweep: 120 template families (document, expression and expected value with REP / IDX / NUM holes) instantiated for every n = 0..%d: '
             'a 2/3/4-byte character after n letters under 17 string operations, n distinct variables / fields / arguments / hash keys, every array / object / string function on inputs of size n, '
@@ -347,7 +353,7 @@ def c11(ctx, api):
                                          harness_args=['-timeout', '60s'])
     acc.add('GenBigStr: sort / sort_by / max / min / reverse on %s strings with leading characters of 1-4 bytes in pseudo-random order; '
             'the expected array is a closed form checked against the specification sort for n = 10, 20, 30' % sizes, st, summ)
-    st, summ = api['run_tlc_to_harness'](ctx, 'tsweep', 'GenTSweep', cfg(constants={'Emit': 'TRUE', 'Prop': '"C11"', 'To': 9000 if thorough else 1100}),
+    st, summ = api['run_tlc_to_harness'](ctx, 'tsweep', 'GenTSweep', cfg(constants={'Emit': 'TRUE', 'Prop': '"C11"', 'Only': '{}', 'To': 9000 if thorough else 1100}),
                                          timeout=1500, harness_args=['-timeout', '600s'])
     acc.add('GenTSweep: 120 template families (document, expression and expected value with REP / IDX / NUM holes) instantiated for every n = 0..%d: '
             'a 2/3/4-byte character after n letters under 17 string operations, n distinct variables / fields / arguments / hash keys, every array / object / string function on inputs of size n, '
@@ -602,6 +608,10 @@ def c08(ctx, api):
             'characters raw inside each literal kind at 3 positions; every one-character escape' % (13 if thorough else 8), st, summ)
     st, summ = api['run_tlc_to_harness'](ctx, 'probe', 'GenProbe', cfg(constants={'Emit': 'TRUE', 'Prop': '"C08"'}), timeout=1500, harness_args=['-timeout', '30s'])
     acc.add('GenProbe: single inputs with a pinned outcome from the audit round (recorded findings, re-observed on every run)', st, summ)
+    st, summ = api['run_tlc_to_harness'](ctx, 'tsweep', 'GenTSweep', cfg(constants={'Emit': 'TRUE', 'Prop': '"C08"', 'Only': '{"err-", "unbound"}', 'To': 9000 if thorough else 1100}),
+                                         timeout=1500, harness_args=['-timeout', '600s'])
+    acc.add('GenTSweep failing-call families: the category of a fault whose text (pad string, function or variable name, argument list, input) '
+            'has n characters / elements, every n = 0..%d' % (9000 if thorough else 1100), st, summ)
     return acc.result(RULE_PINNED + '; on every failing call the harness also requires a nil result, exactly one matching exported '
                       'category under errors.Is, and that the error formats',
                       extra={'model_checks': ['SingleCategory', 'StaticIgnoresDoc', 'StaticAtCompile']})
@@ -767,6 +777,11 @@ def c03(ctx, api):
     acc.add('GenSweep: 40 token families (raw / JSON / quoted literals with 1-4-byte characters and escapes, blanks, identifiers, ill-formed '
             'and unterminated literals) at EVERY repetition count 0..%d, i.e. every byte alignment across 512 .. 32768-byte boundaries; '
             'Search and Compile at each length (expected outcome a function of n, SweepLemma)' % (9000 if thorough else 1100), st, summ)
+    st, summ = api['run_tlc_to_harness'](ctx, 'tsweep', 'GenTSweep', cfg(constants={'Emit': 'TRUE', 'Prop': '"C03"', 'Only': '{"err-", "chain-", "s-", "sl-"}', 'To': 9000 if thorough else 1100}),
+                                         timeout=1500, harness_args=['-timeout', '600s'])
+    acc.add('GenTSweep failing-call families: pad strings p.w^n (w of 1-4 bytes, 4 alignment prefixes, literal or from the document), function and '
+            'variable names of n letters, n surplus arguments, type and value faults on inputs of size n, for every n = 0..%d -- the error of every '
+            'failing call is formatted (Error()) before the case passes; plus the string and operator-run families' % (9000 if thorough else 1100), st, summ)
     return acc.result('a case passes when Compile / Search / Expression.Search return normally (value or error, error formats, no panic, no fatal '
                       'runtime error, no hang); cases run in child processes so that a crash or hang is attributed to its input; non-trivial = '
                       'the specification also pins the outcome', level='model_checking')
